@@ -386,6 +386,15 @@ class W(convo.World):
                 self.violate("delivery/duplicate/retry-requested-for-both-copies-of-a-duplicated-message",
                              desc + ": shown %d times (the server delivered it twice, the recipient could decrypt neither copy "
                              "and sent %d retry receipts, the sender re-sent it for each)" % (n, nretry))
+            elif self.server.duplicated.get(k3) and nretry >= 2 and rec["group"] and \
+                    any(ck[0] == client.jid and ck[2] == rec["sender"] for ck in self.server.corrupted_counter):
+                # the same history one step later: an earlier message of this sender to this recipient had its counter
+                # damaged and was acknowledged as a "duplicate" (F26) — with it the sender key it carried was lost, so the
+                # recipient can decrypt neither copy of this (undamaged, duplicated) group message and asks twice
+                self.violate("delivery/duplicate/retry-requested-for-both-copies-of-a-duplicated-message/sender-key-lost-"
+                             "with-a-counter-damaged-message",
+                             desc + ": shown %d times (%d retry receipts; the sender key was in an earlier message whose "
+                             "counter field was damaged)" % (n, nretry))
             else:
                 self.violate("delivery/duplicate/%s%s" % (kind, "/group" if rec["group"] else ""),
                              desc + ": shown %d times to the application" % n)
